@@ -208,8 +208,10 @@ CHECKS = {
              "checked and unchecked, is executed symbolically on a buffer of SYMBOLIC length n in [1, 2^20], base alignment 1 and arbitrary (lazily symbolic) contents: "
              "every buffer read is a solver-checked bound against n, every write stays inside the exact-size destination object / slot array sized from the reported l "
              "(l enumerated -1, 0..8 quick / ..12 thorough), every access respects the alignment the IR declares given a 1-aligned buffer, reads of uninitialised bytes "
-             "are flagged, and an accepted object re-marshals into exactly n bytes. Part 2 (all other API calls free of UB) is covered only to the extent that the same "
-             "interpreter assertions (bounds, alignment, uninitialised reads, shift ranges, nsw/nuw, restrict overlap) are active in the runs of all other properties.",
+             "are flagged, and an accepted object re-marshals into exactly n bytes. Part 2 (all other API calls free of UB) is decided for the calls that the included "
+             "obligations execute - byte I/O (C02), every assembly routine (C03), decoders (C09), the WKD-IBE operations incl. encrypt/decrypt (C11-C14), the LQ-IBE "
+             "operations (C16), the C wrappers (C19) - under the same interpreter assertions (bounds, alignment, uninitialised reads, shift ranges, nsw/nuw, restrict "
+             "overlap); not for arbitrary call sequences.",
         note="x86-64 configuration only (the ARM targets' stricter alignment rules are the reason the alignment assertion matters; their IR is not re-run). Go bindings out of scope. No sanitizer run is the deciding step (UBSan is used only to replay).",
         tech="LLVM-IR symbolic execution with a symbolic-length buffer: solver-checked bounds/alignment assertions on every access; native replay with -fsanitize=alignment",
         ref="5/C17"),
